@@ -363,7 +363,7 @@ func (e *specEnv) selector(s *SExpr) Val {
 	if b := s.Args[0]; b.Op == "id" {
 		if _, isVal := e.lookup(b.Name); !isVal {
 			path := x.prog.resolveQual(e.pkgPath, b.Name)
-			if p := x.prog.byPath[path]; p != nil || path != b.Name {
+			if p := x.prog.byPath[path]; p != nil || path != b.Name || x.prog.typesPkg(path) != nil {
 				var obj types.Object
 				if p != nil {
 					obj = p.Types.Scope().Lookup(s.Name)
@@ -376,6 +376,9 @@ func (e *specEnv) selector(s *SExpr) Val {
 						return v
 					}
 				case *types.Var:
+					if sv, ok := x.specialGlobal(o); ok {
+						return sv
+					}
 					return x.globalVal(e.st, o)
 				}
 				e.fail("unknown qualified name %s.%s", b.Name, s.Name)
